@@ -1,2 +1,68 @@
--- placeholder driver (model for C08 not built yet)
-def main : IO Unit := pure ()
+/-
+  Driver for the server model (C08, C13).
+    hist <nconn> <nev> {<conn> <item>}*
+      item = G | X | T | M <type> <ser> <seq> <oneway> <body>
+      body = U | H <wf> <ok> <a|r|u> | C X | C R | C M <token> <r|bs|bo|x> <g|s|c|o|y> <ser> <cb> <ann-list> <track-list> <untrack-list> <session>
+    → per connection:  phase|type:seq:ser:exc,...|execs|hook|close|resClosed|tracked|slot|session   joined by " ; "
+-/
+import PyroModel.Server
+import Driver.Util
+
+open Pyro.Server Driver
+
+def parseBody : List String → Option (Body × List String)
+  | "U" :: r => some (.undecodable, r)
+  | "H" :: wf :: ok :: v :: r =>
+    let val := if v == "a" then Validator.accept else if v == "r" then Validator.raises else Validator.unserialisableReply
+    some (.handshake (wf == "1") (ok == "1") val, r)
+  | "C" :: "X" :: r => some (.call .unknownObject, r)
+  | "C" :: "R" :: r => some (.call .refused, r)
+  | "C" :: "M" :: tok :: out :: exc :: ser :: cb :: ann :: tr :: un :: sess :: r => do
+    let token ← tok.toNat?
+    let e := if exc == "g" then Exc.generic else if exc == "s" then Exc.serialize else if exc == "c" then Exc.connClosed
+             else if exc == "o" then Exc.commOther else Exc.security
+    let outcome := if out == "r" then Outcome.returns .ok else if out == "bs" then Outcome.returns .serializeErr
+                   else if out == "bo" then Outcome.returns .otherErr else Outcome.raises e (ser == "1")
+    let ann ← parseNatList ann
+    let tr ← parseNatList tr
+    let un ← parseNatList un
+    some (.call (.method { token, outcome, isCallback := cb == "1", setsAnn := ann, tracks := tr, untracks := un, session := sess == "1" }), r)
+  | _ => none
+
+def parseItem : List String → Option (Item × List String)
+  | "G" :: r => some (.garbage, r)
+  | "X" :: r => some (.cut, r)
+  | "T" :: r => some (.timeout, r)
+  | "M" :: ty :: ser :: seq :: ow :: r => do
+    let ty ← ty.toNat?
+    let ser ← ser.toNat?
+    let seq ← seq.toNat?
+    let (b, r') ← parseBody r
+    some (.msg { type := ty, serId := ser, seq := seq, oneway := ow == "1", body := b }, r')
+  | _ => none
+
+def parseEvents : Nat → List String → Option (List (Nat × Item))
+  | 0, [] => some []
+  | n + 1, c :: r => do
+    let c ← c.toNat?
+    let (it, r') ← parseItem r
+    let rest ← parseEvents n r'
+    some ((c, it) :: rest)
+  | _, _ => none
+
+def showConn (c : Conn) : String :=
+  let ph := match c.phase with | .fresh => "fresh" | .active => "active" | .closed => "closed"
+  let reps := ",".intercalate (c.outbox.map fun r => s!"{r.type}:{r.seq}:{r.serId}:{if r.isExc then 1 else 0}")
+  s!"{ph}|{reps}|{natListToString c.execs}|{c.hookCalls}|{c.closeCalls}|{natListToString c.resClosed}|{natListToString c.tracked}|{if c.slot then 1 else 0}|{if c.sessionInst then 1 else 0}"
+
+def step' : List String → String
+  | "hist" :: nc :: ne :: rest =>
+    match nc.toNat?, ne.toNat? with
+    | some nc, some ne =>
+      match parseEvents ne rest with
+      | some evs => " ; ".intercalate ((run (List.replicate nc {}) evs).map showConn)
+      | none => "bad-op"
+    | _, _ => "bad-op"
+  | _ => "bad-op"
+
+def main : IO Unit := runDriver step'
